@@ -26,14 +26,17 @@ def oracle(sc, out):
         if end is None:
             res.append(("never-ends:%s" % run["end"], "runner %d: accept() did not end after %s" % (rid, run["end"])))
             break
-        if run["end"] in ("shutdown", "shutdown-thread-payload", "sigint") and end["result"] != "returned":
+        if run["end"] in ("shutdown", "shutdown-thread-payload", "shutdown-adopters", "sigint") and end["result"] != "returned":
             res.append(("graceful-stop-raised:%s" % run["end"], "runner %d: after %s accept() ended with %s" % (rid, run["end"], end["result"])))
         if run["end"] == "failure" and end["result"] != "RuntimeError":
             res.append(("failure-not-raised", "runner %d: a failing payload ended accept() with %s" % (rid, end["result"])))
-        if run["end"] in ("shutdown", "shutdown-thread-payload"):
+        if run["end"] in ("shutdown", "shutdown-thread-payload", "shutdown-adopters"):
             if not any(e["kind"] == "shutdown-return" and e.get("rid") == rid for e in log):
                 res.append(("shutdown-hangs", "runner %d: shutdown() did not return" % rid))
         # a concurrent accept must be rejected and leave the active runner undisturbed
+        for a in log:
+            if a["kind"] == "accept-admitted" and begin["seq"] < a["seq"] < end["seq"]:
+                res.append(("concurrent-accept-admitted", "a concurrent accept on runner %s was admitted while runner %d was accepting" % (a.get("rid"), rid)))
         conc = [e for e in log if e["kind"] == "accept-end" and e.get("concurrent") and begin["seq"] < e["seq"] < end["seq"]]
         for c in conc:
             if c["result"] != "RuntimeError" or c.get("has_cause"):
